@@ -71,4 +71,40 @@ CHECKS = {'C01': {'level': 'exploration',
          'tests': [{'run': '^TestC07$',
                     'checks': {'quick': 250, 'thorough': 2500},
                     'shards': {'quick': 1, 'thorough': 16},
+                    'timeout': {'quick': 900, 'thorough': 3400}}]},
+ 'C11': {'level': 'exploration',
+         'rule': 'sequential part (model-based, rapid): fill actions of 1,2,63,64,65,127,128,129,16383,16384,16385 rows storing into EVERY column, '
+                 'patterned bulk deletes (ranges, strides, all-but-one-bit-per-word, whole words, tail, whole first block), single inserts that '
+                 'store into <=1 column followed by reads of every column through all reader paths, multi-insert transactions (several reservations '
+                 'in flight), rollbacks and failing inserts, every Capacity option. Oracle: every returned offset is free in the reference model and '
+                 'not reserved earlier in the same transaction; Count == live rows after every action; a fresh row shows exactly what its insert '
+                 'stored (merges start from zero). free-parallel part (rapid-generated programs for 2..8 goroutines, real parallelism): every insert '
+                 'stores a unique tag; at quiescence every surviving tag is found exactly once at the offset its insert returned, no fresh row '
+                 "exposes a previous occupant's value, Count == surviving rows. non-trivial = an insert landed on a previously deleted offset that "
+                 'had held values in a column the new insert did not set (sequential) / a surviving row sits on a previously deleted offset '
+                 '(parallel); distinct = hash of trace/program',
+         'assumptions': ['free-parallel runs are not bit-reproducible: the replay re-runs the generated program (schedule left to the Go runtime)'],
+         'tests': [{'run': '^TestC11$',
+                    'checks': {'quick': 200, 'thorough': 2000},
+                    'shards': {'quick': 1, 'thorough': 12},
+                    'timeout': {'quick': 900, 'thorough': 3400}},
+                   {'run': '^TestC11Parallel$',
+                    'checks': {'quick': 150, 'thorough': 3000},
+                    'shards': {'quick': 1, 'thorough': 4},
+                    'timeout': {'quick': 900, 'thorough': 3400}}]},
+ 'C12': {'level': 'exploration',
+         'rule': 'model-based stateful histories on keyed schemas: transactions of 1..8 steps over InsertKey/UpsertKey/QueryKey/DeleteKey/SetKey '
+                 'with keys from a 6-key alphabet (forcing repeats, incl. the empty key), mixed with updates/deletes by offset, rollbacks, failing '
+                 "inserts, collection-level and transaction-level entry points, prefills and patterned bulk deletes. Oracle: each operation's "
+                 'outcome against the committed reference table at issue time (InsertKey errors iff present; QueryKey/DeleteKey error iff absent; '
+                 'upsert callback runs on the existing row iff present; SetKey errors iff the key is taken); after every transaction every alphabet '
+                 "key resolves (QueryKey + Row.Key) to exactly the model's row or fails, and a full scan finds no two live rows with one key. "
+                 'non-trivial = a key that had been deleted or re-keyed away is successfully used again, or >=2 key operations on one key in one '
+                 'committed transaction; distinct = hash of the trace',
+         'assumptions': ['existence is judged against the committed table when the operation is issued (documented mechanism)',
+                         'the key column is written only through InsertKey/UpsertKey/SetKey (SetAny on the key column bypasses the duplicate test '
+                         'and is outside the property)'],
+         'tests': [{'run': '^TestC12$',
+                    'checks': {'quick': 400, 'thorough': 4000},
+                    'shards': {'quick': 1, 'thorough': 16},
                     'timeout': {'quick': 900, 'thorough': 3400}}]}}
